@@ -402,6 +402,40 @@ pub fn run_c13(rep: &mut Report, thorough: bool) {
         }
         crate::props::pairs::pair_histories(rep, &env.cfg, &format!("http-pair-histories-{}", tag), &crate::props::pairs::datagram_variants("http", &[b"GET /a HTTP/1.1\r\nHost: x\r\n\r\n".to_vec(), b"POST / HTTP/1.0\n\n".to_vec(), b"HEAD /h HTTP/1.1\r\nA:b\r\nC: d\r\n\r\n".to_vec()]));
         long_conv_stage(rep, &env, &format!("http-long-connection-{}", tag), None, &core[..24.min(core.len())], if thorough { 1500 } else { 300 });
+        // the peer's advertised window (and urgent pointer) do not shape the answer
+        {
+            let t0 = std::time::Instant::now();
+            let stage = format!("http-window-{}", tag);
+            let opts = RunOpts::new(&stage).stateful().chunk(128).no_monitor();
+            let f4 = flow(false, PORT_PAIRS[0].0, PORT_PAIRS[0].1);
+            let c4 = env.cookies[&key_of(&f4)].wrapping_add(1);
+            let stg = stage.clone();
+            engine::run(
+                &env.cfg,
+                1024 + 64,
+                &opts,
+                |i| {
+                    let mut seg = TcpSeg::new(f4.cport, f4.sport, 1000, c4, F_PSH | F_ACK, b"GET /w HTTP/1.1\r\nHost: x\r\n\r\n");
+                    if i < 1024 {
+                        seg.window = i as u16;
+                    } else {
+                        seg.window = [1024u16, 1460, 4096, 8192, 16384, 32768, 65534, 65535][(i % 8) as usize];
+                        seg.urg = [0u16, 1, 5, 100, 1000, 65535, 17, 2][((i - 1024) / 8) as usize];
+                        if (i - 1024) / 8 >= 4 {
+                            seg.flags |= F_URG;
+                        }
+                    }
+                    vec![Cmd::Frame(f4.tcp_seg(&seg))]
+                },
+                |it: &Item, sk: &mut Sink| {
+                    let model = Model::new();
+                    engine::judge_item(&env.cfg, &model, &env.cookies, it, it.cmds.len(), &stg, sk);
+                    sk.count("frames", 1);
+                },
+                &mut rep.sink,
+            );
+            rep.stage(&stage, "a complete request with every advertised window 0..1023 and 8 larger ones x urgent pointer values / URG flag", 1024 + 64, t0);
+        }
         // keep-alive: a second and third complete request on a connection whose earlier requests
         // were answered
         {
@@ -519,6 +553,21 @@ pub fn run_c14(rep: &mut Report, thorough: bool) {
             let k = offs.partition_point(|o| *o <= i) - 1;
             (p4, msgs[k][..(i - offs[k]) as usize].to_vec())
         });
+        // queries whose first bytes look like the head of another protocol's signature (id 0x0001 with
+        // flag words 0x0000 / 0x0008 ... = a STUN header; ids / flags that read as RPC, SMB, SSH,
+        // HTTP heads) with names of every short length: the DNS fallback still answers them unless a
+        // signature is COMPLETE
+        {
+            let ids: [u16; 10] = [0x0000, 0x0001, 0x0002, 0x0101, 0x8000, 0x4745, 0x5353, 0x4768, 0x0000, 0xff53];
+            let fls: [u16; 8] = [0x0000, 0x0008, 0x0100, 0x0001, 0x0010, 0x5420, 0x482d, 0x3073];
+            let dims = [ids.len() as u64, fls.len() as u64, 16, 2];
+            sweep_app(rep, &env, &format!("dns-signature-lookalikes-{}", tag), "10 ids x 8 flag words that read as the head of another protocol's signature x name lengths 0..15 x {1, 2} questions", product(&dims), |i| {
+                let d = unrank(i, &dims);
+                let name: Vec<Vec<u8>> = if d[2] == 0 { vec![] } else { vec![vec![b'n'; d[2] as usize]] };
+                let qs: Vec<(Vec<Vec<u8>>, u16, u16)> = (0..=d[3]).map(|_| (name.clone(), 1u16, 1u16)).collect();
+                (p4, appdns::build_query(ids[d[0] as usize], fls[d[1] as usize] & 0x7fff, &qs))
+            });
+        }
         // label content: every byte value at the first / middle / last position of a label (the owner
         // name of the answer is the queried name byte for byte, whatever its bytes)
         sweep_app(rep, &env, &format!("dns-label-bytes-q-{}", tag), "every byte value 0..255 at 3 positions of a 5-byte label x {first, second} question", 256 * 3 * 2, |i| {
@@ -976,6 +1025,15 @@ pub fn run_c16(rep: &mut Report, thorough: bool) {
             cuts_stage(rep, &env, &format!("rpc-cuts-{}", tag), &pls, 12);
         }
         crate::props::pairs::pair_histories(rep, &env.cfg, &format!("rpc-pair-histories-{}", tag), &crate::props::pairs::datagram_variants("rpc", &[apprpc::build_call(0x61626364, 2, 100000, 2, 3, &[], &[]), apprpc::build_call(0x61626364, 2, 100000, 4, 4, &[1, 2, 3, 4], &[]), apprpc::build_call(0x01020304, 2, 100003, 3, 0, &[], &[])]));
+        // record lengths: credentials of every length 0..400 (record lengths 40..440 incl. those whose
+        // low byte is small), over TCP and UDP
+        sweep_app(rep, &env, &format!("rpc-record-lengths-{}", tag), "credential length 0..400 step 4 x verifier length {0, 8} x {UDP v4, TCP v4, TCP v6}", 101 * 2 * 3, |i| {
+            let d = unrank(i, &[101, 2, 3]);
+            let cred: Vec<u8> = (0..d[0] as usize * 4).map(|k| k as u8).collect();
+            let verf: Vec<u8> = vec![0x5a; d[1] as usize * 8];
+            let p = [pu4, paths[1], paths[3]][d[2] as usize];
+            (p, mk(p, 0x61626364, 100000, 2, 3, &cred, &verf))
+        });
         // multi-fragment records (RFC 5531 record marking): the call split into two fragments at every
         // offset, and into three at a grid of offsets; each stream sent whole, cut at the fragment
         // boundary, and cut inside the second fragment header
@@ -1519,6 +1577,16 @@ pub fn run_c18(rep: &mut Report, thorough: bool) {
             (if d[2] == 0 { pu } else { pt }, m)
         });
         crate::props::pairs::pair_histories(rep, &env.cfg, &format!("ssh-pair-histories-{}", tag), &crate::props::pairs::datagram_variants("ssh", &[b"SSH-2.0-OpenSSH_8.9 x\r\n".to_vec(), b"SSH-1.99-a\r\n".to_vec(), ghost_request()]));
+        // an unterminated / malformed identification first, then complete ones on the same connection
+        {
+            let bad: Vec<&[u8]> = vec![b"SSH-2.0-OpenSSH_8.9p1", b"SSH-2.0x\r\n", b"SSH-1.99-", b"SSH-2.0-a\r", b"SSH-2.0"];
+            let good: Vec<&[u8]> = vec![b"SSH-2.0-OpenSSH_8.9p1\r\n", b"SSH-1.99-x y\r\n"];
+            let nb = bad.len() as u64;
+            sweep_conv(rep, &env, &format!("ssh-after-invalid-{}", tag), "[identification that is not answered (5 shapes)] then complete identifications on the same connection x {v4,v6}", nb * 2 * 2, |i| {
+                let d = unrank(i, &[nb, 2, 2]);
+                (Path { tcp: true, v6: d[2] == 1, ports: d[2] as usize }, vec![bad[d[0] as usize].to_vec(), good[d[1] as usize].to_vec(), good[(1 - d[1]) as usize].to_vec()])
+            });
+        }
         // later segments on a connection identified as SSH are identification strings of their own
         {
             let firsts: [&[u8]; 2] = [b"SSH-2.0-first\r\n", b"SSH-1.99-first c\r\n"];
